@@ -353,3 +353,147 @@ Proof.
     + destruct (Z.ltb_spec (j / 64) ow); [lia|]. rewrite orb_false_r. reflexivity.
   - unfold bs_or, bs_clear_unused, bs_with_words. cbn [b_size]. destruct (b_size b mod 64 =? 0); reflexivity.
 Qed.
+
+(* ------------------------------------------------------------------ and_ / and_not / or_ keep the invariants *)
+Lemma bs_inv2_with_words a b ws' : bs_inv2 a b -> zlength ws' = zlength (b_words b) ->
+  (forall k, 0 <= k < words_per_bits (b_size b) -> word_ok 64 (wget ws' k)) ->
+  (b_size b mod 64 <> 0 -> forall t, b_size b mod 64 <= t < 64 -> Z.testbit (wget ws' (b_size b / 64)) t = false) ->
+  bs_inv2 a (bs_with_words b ws').
+Proof.
+  intros [(B1 & B2 & B3 & B4 & B5 & B6) Hw] Hl Hok Ht. unfold bs_with_words. split.
+  - unfold bs_inv. cbn [b_size b_cap b_words b_data]. split; [exact B1|]. split; [exact B2|]. split; [exact B3|]. split; [rewrite Hl; exact B4|]. split; [|exact B6].
+    intros Hm. destruct (div64_facts (b_size b) ltac:(lia)) as (D1 & D2 & D3).
+    assert (Hidx : 0 <= b_size b / 64 < words_per_bits (b_size b)).
+    { rewrite (wpb_spec (b_size b) ltac:(lia)). destruct (Z.eqb_spec (b_size b mod 64) 0); [contradiction|lia]. }
+    pose proof (Hok _ Hidx) as Hwk. apply (word_ok_of_bits (b_size b mod 64)); [lia|exact (proj1 Hwk)|].
+    intros t Htb. destruct (Z_lt_le_dec t 64); [apply (Ht Hm); lia|apply (word_ok_testbit_high 64 _ t ltac:(lia) Hwk); lia].
+  - intros k Hk. cbn [b_size b_words] in *. apply Hok. exact Hk.
+Qed.
+
+Lemma word_ok_land_l w x : word_ok 64 w -> word_ok 64 (Z.land w x).
+Proof.
+  intros Hw. apply word_ok_of_bits; [lia|apply Z.land_nonneg; left; exact (proj1 Hw)|].
+  intros j Hj. rewrite Z.land_spec, (word_ok_testbit_high 64 w j ltac:(lia) Hw Hj). reflexivity.
+Qed.
+
+Theorem bs_binary_inv a a' b o : bs_inv2 a b -> bs_inv2 a' o ->
+  bs_inv2 a (bs_and b o) /\ bs_inv2 a (bs_and_not b o) /\ bs_inv2 a (bs_or b o).
+Proof.
+  intros Bb Oo. pose proof Bb as [B Hwb]. pose proof Oo as [O Hwo]. pose proof B as (B1 & B2 & B3 & B4 & B5 & B6). pose proof O as (O1 & _).
+  destruct (wpb_le_cap b a B) as [Hm Hj]. destruct (wpb_le_cap o a' O) as [Hmo Hjo].
+  set (tw := words_per_bits (b_size b)) in *. set (ow := words_per_bits (b_size o)) in *.
+  set (cm := words_per_bits (Z.min (b_size b) (b_size o))).
+  assert (Hcm : 0 <= cm <= tw /\ cm <= ow).
+  { unfold cm, tw, ow. destruct (Z.min_spec (b_size b) (b_size o)) as [[H1 ->]|[H1 ->]].
+    - split; [lia|apply wpb_mono; lia].
+    - split; [split; [unfold words_per_bits; apply Z.div_pos; lia|apply wpb_mono; lia]|lia]. }
+  destruct Hcm as (Hc1 & Hc2).
+  assert (Htail : b_size b mod 64 <> 0 -> forall t, b_size b mod 64 <= t < 64 -> Z.testbit (wget (b_words b) (b_size b / 64)) t = false).
+  { intros Hm' t Ht. pose proof (Z.mod_pos_bound (b_size b) 64 ltac:(lia)). apply (word_ok_testbit_high (b_size b mod 64) _ t); [lia|apply B5; exact Hm'|lia]. }
+  assert (Hidx : b_size b mod 64 <> 0 -> 0 <= b_size b / 64 < tw).
+  { intros Hm'. destruct (div64_facts (b_size b) ltac:(lia)) as (D1 & D2 & D3). unfold tw. rewrite (wpb_spec (b_size b) ltac:(lia)).
+    destruct (Z.eqb_spec (b_size b mod 64) 0); [contradiction|lia]. }
+  (* the word of a combination: f (this word) (other word) on the first n words, else unchanged *)
+  assert (Hcomb : forall f n, 0 <= n <= tw -> forall k, 0 <= k ->
+            wget (wcombine f (b_words b) (b_words o) 0 (Z.to_nat n)) k = if k <? n then f (wget (b_words b) k) (wget (b_words o) k) else wget (b_words b) k).
+  { intros f n Hn k Hk. rewrite wget_wcombine by lia. destruct (Z.leb_spec 0 k); [|lia]. cbn [andb].
+    destruct (Z.ltb_spec k (0 + Z.of_nat (Z.to_nat n))); destruct (Z.ltb_spec k n); try reflexivity; lia. }
+  split; [|split].
+  - unfold bs_and. fold tw ow. set (c := Z.min tw ow). assert (Hc : 0 <= c <= tw) by (unfold c; lia).
+    assert (Hget : forall k, 0 <= k < tw -> wget (wfill (wcombine Z.land (b_words b) (b_words o) 0 (Z.to_nat c)) c (Z.to_nat (tw - c)) 0) k =
+                     if k <? c then Z.land (wget (b_words b) k) (wget (b_words o) k) else 0).
+    { intros k Hk. rewrite wget_wfill by (rewrite ?zlength_wcombine; lia). destruct (Z.leb_spec c k); cbn [andb].
+      - destruct (Z.ltb_spec k (c + Z.of_nat (Z.to_nat (tw - c)))); [|lia]. destruct (Z.ltb_spec k c); [lia|reflexivity].
+      - rewrite Hcomb by lia. destruct (Z.ltb_spec k c); [reflexivity|lia]. }
+    apply bs_inv2_with_words; [exact Bb|rewrite zlength_wfill, zlength_wcombine; reflexivity| |].
+    + intros k Hk. rewrite Hget by exact Hk. destruct (k <? c); [apply word_ok_land_l; apply Hwb; exact Hk|split; cbn; lia].
+    + intros Hm' t Ht. rewrite Hget by (apply Hidx; exact Hm'). destruct (b_size b / 64 <? c); [|apply Z.bits_0].
+      rewrite Z.land_spec, (Htail Hm' t Ht). reflexivity.
+  - unfold bs_and_not. fold cm.
+    apply bs_inv2_with_words; [exact Bb|rewrite zlength_wcombine; reflexivity| |].
+    + intros k Hk. rewrite Hcomb by lia. destruct (k <? cm); [apply word_ok_land_l|]; apply Hwb; exact Hk.
+    + intros Hm' t Ht. rewrite Hcomb by (try lia; apply Hidx; exact Hm'). destruct (b_size b / 64 <? cm); [|apply (Htail Hm' t Ht)].
+      rewrite Z.land_spec, (Htail Hm' t Ht). reflexivity.
+  - unfold bs_or. fold cm. set (ws1 := wcombine Z.lor (b_words b) (b_words o) 0 (Z.to_nat cm)).
+    assert (Hok1 : forall k, 0 <= k < tw -> word_ok 64 (wget ws1 k)).
+    { intros k Hk. unfold ws1. rewrite Hcomb by lia. destruct (Z.ltb_spec k cm); [|apply Hwb; exact Hk].
+      apply word_ok_lor; [apply Hwb; exact Hk|apply Hwo; fold ow; lia]. }
+    assert (Hl1 : zlength ws1 = zlength (b_words b)) by (unfold ws1; apply zlength_wcombine).
+    unfold bs_clear_unused, bs_with_words. cbn [b_size b_words b_data b_cap].
+    destruct (Z.eqb_spec (b_size b mod 64) 0) as [E|E].
+    + change (mkbs (b_data b) ws1 (b_size b) (b_cap b)) with (bs_with_words b ws1). apply bs_inv2_with_words; [exact Bb|exact Hl1|exact Hok1|intros Hm'; contradiction].
+    + change (mkbs (b_data b) (wset ws1 (b_size b / 64) (Z.land (wget ws1 (b_size b / 64)) (Z.ones (b_size b mod 64)))) (b_size b) (b_cap b))
+        with (bs_with_words b (wset ws1 (b_size b / 64) (Z.land (wget ws1 (b_size b / 64)) (Z.ones (b_size b mod 64))))).
+      pose proof (Hidx E) as Hi. destruct (div64_facts (b_size b) ltac:(lia)) as (D1 & D2 & D3).
+      apply bs_inv2_with_words; [exact Bb|rewrite zlength_wset; exact Hl1| |].
+      * intros k Hk. destruct (Z.eq_dec k (b_size b / 64)) as [->|Hne].
+        -- rewrite wget_wset_same by lia. apply word_ok_land_ones. lia.
+        -- rewrite wget_wset_other by lia. apply Hok1. exact Hk.
+      * intros _ t Ht. rewrite wget_wset_same by lia. rewrite Z.land_spec, ones_testbit by lia.
+        destruct (Z.ltb_spec t (b_size b mod 64)); [lia|]. apply andb_false_r.
+Qed.
+
+(* ------------------------------------------------------------------ copy_from(arena, other) *)
+Theorem bs_copy_from_sound mok a a' b o : inv a -> bs_inv2 a b -> bs_inv2 a' o -> b_size o < 2 ^ 31 ->
+  let '(e, a1, b') := bs_copy_from mok a b o in
+  inv a1 /\
+  ((e = EOk /\ bs_inv2 a1 b' /\ b_size b' = b_size o /\ forall j, 0 <= j < b_size o -> bs_bit b' j = bs_bit o j)
+   \/ (e = EOutOfMemory /\ b' = b /\ bs_inv a1 b)).
+Proof.
+  intros I [B Hwb] [O Hwo] Hn. pose proof B as (B1 & B2 & B3 & B4 & B5 & B6). pose proof O as (O1 & O2 & O3 & O4 & O5 & O6).
+  destruct (wpb_le_cap o a' O) as [Hmo Hjo]. unfold bs_copy_from.
+  destruct (Z.eqb_spec (b_size o) 0) as [E0|E0].
+  - (* the other set is empty: only the size changes *)
+    split; [exact I|]. left. split; [reflexivity|]. split; [|split; [cbn; lia|intros j Hj; lia]].
+    split.
+    + unfold bs_inv. cbn [b_size b_cap b_words b_data]. split; [lia|]. split; [exact B2|]. split; [exact B3|]. split; [exact B4|]. split; [|exact B6].
+      intros Hm. exfalso. apply Hm. reflexivity.
+    + intros k Hk. cbn in Hk. lia.
+  - (* the final copy, given a set b1 with enough capacity *)
+    assert (Hfin : forall a1 b1, bs_inv a1 b1 -> b_size b1 = 0 \/ b1 = b -> b_size o <= b_cap b1 ->
+              let b' := mkbs (b_data b1) (wcombine (fun _ s => s) (b_words b1) (b_words o) 0 (Z.to_nat (words_per_bits (b_size o)))) (b_size o) (b_cap b1) in
+              bs_inv2 a1 b' /\ b_size b' = b_size o /\ forall j, 0 <= j < b_size o -> bs_bit b' j = bs_bit o j).
+    { intros a1 b1 (C1 & C2 & C3 & C4 & C5 & C6) _ Hcap. cbn zeta.
+      assert (Hwl : words_per_bits (b_size o) <= zlength (b_words b1)).
+      { rewrite C4. rewrite (wpb_spec (b_size o) ltac:(lia)). destruct (div64_facts (b_size o) ltac:(lia)) as (D1 & D2 & D3).
+        pose proof (Z.div_mod (b_cap b1) 64 ltac:(lia)) as Hcd. rewrite C2 in Hcd. destruct (Z.eqb_spec (b_size o mod 64) 0); lia. }
+      assert (Hget : forall k, 0 <= k < words_per_bits (b_size o) ->
+                wget (wcombine (fun _ s => s) (b_words b1) (b_words o) 0 (Z.to_nat (words_per_bits (b_size o)))) k = wget (b_words o) k).
+      { intros k Hk. rewrite wget_wcombine by lia. destruct (Z.leb_spec 0 k); [|lia].
+        destruct (Z.ltb_spec k (0 + Z.of_nat (Z.to_nat (words_per_bits (b_size o))))); [reflexivity|lia]. }
+      split; [|split; [reflexivity|]].
+      - split.
+        + unfold bs_inv. cbn [b_size b_cap b_words b_data]. split; [lia|]. split; [exact C2|]. split; [exact C3|].
+          split; [rewrite zlength_wcombine; exact C4|]. split; [|exact C6].
+          intros Hm. destruct (div64_facts (b_size o) ltac:(lia)) as (D1 & D2 & D3).
+          rewrite Hget; [apply O5; exact Hm|]. rewrite (wpb_spec (b_size o) ltac:(lia)). destruct (Z.eqb_spec (b_size o mod 64) 0); [contradiction|lia].
+        + intros k Hk. cbn [b_size b_words] in *. rewrite Hget by exact Hk. apply Hwo. exact Hk.
+      - intros j Hj. unfold bs_bit. cbn [b_words]. rewrite !bv_get_wget. rewrite Hget by (apply Hjo; exact Hj). reflexivity. }
+    destruct (Z.gtb_spec (b_size o) (b_cap b)) as [Hgt|Hle].
+    + (* reallocation: the same arena traffic as a resize of the emptied set *)
+      set (b0 := mkbs (b_data b) (b_words b) 0 (b_cap b)).
+      assert (B0 : bs_inv a b0).
+      { unfold bs_inv, b0. cbn [b_size b_cap b_words b_data]. split; [lia|]. split; [exact B2|]. split; [exact B3|]. split; [exact B4|]. split; [|exact B6].
+        intros Hm. exfalso. apply Hm. reflexivity. }
+      pose proof (bs_resize_grow_gen mok a b0 (b_size o) (b_size o) false I B0 ltac:(cbn; lia) Hn) as G.
+      unfold bs_resize in G. cbn [b_size b_cap b_data b_words b0] in G.
+      destruct (Z.leb_spec (b_size o) 0); [lia|].
+      destruct (Z.gtb_spec (b_size o) (b_cap b)); [|lia].
+      destruct ((((b_size o + 63) / 64 * 64) mod 2 ^ 64) <? b_size o).
+      * destruct G as [G1 [(Ge & _)|(_ & _ & G3)]]; [discriminate|]. split; [exact I|]. right. split; [reflexivity|]. split; [reflexivity|exact B].
+      * destruct (alloc_reusable mok a (((b_size o + 63) / 64 * 64) mod 2 ^ 64 / 8)) as [[[p asz]|] a1].
+        -- destruct G as [G1 [(_ & Gi & _)|(Ge & _)]]; [|discriminate]. split; [exact G1|]. left. split; [reflexivity|].
+           set (a2 := match b_data b with Some old => free_reusable a1 old (b_cap b / 8) | None => a1 end) in *.
+           set (b1 := mkbs (Some p) (zrepeat poison (asz * 8 / 64)) 0 ((asz * 8) mod 2 ^ 32)).
+           assert (C1 : bs_inv a2 b1).
+           { destruct Gi as (C1 & C2 & C3 & C4 & _ & C6). cbn [b_size b_cap b_words b_data] in *. rewrite grow_words_length in C4.
+             unfold bs_inv, b1. cbn [b_size b_cap b_words b_data]. split; [lia|]. split; [exact C2|]. split; [exact C3|].
+             split; [|split; [intros Hm; exfalso; apply Hm; reflexivity|exact C6]].
+             rewrite <- C4. cbn [words_per_bits]. unfold words_per_bits. cbn. rewrite Z.sub_0_r. reflexivity. }
+           assert (Hcap1 : b_size o <= b_cap b1) by (destruct Gi as (C1' & _); cbn [b_size b_cap] in C1'; unfold b1; cbn [b_cap]; lia).
+           apply (Hfin a2 b1 C1 (or_introl eq_refl) Hcap1).
+        -- destruct G as [G1 [(Ge & _)|(_ & _ & G3)]]; [discriminate|]. split; [exact G1|]. right. split; [reflexivity|]. split; [reflexivity|].
+           destruct G3 as (D1 & D2 & D3 & D4 & _ & D6). cbn [b_size b_cap b_words b_data] in *.
+           unfold bs_inv. split; [exact B1|]. split; [exact B2|]. split; [exact B3|]. split; [exact B4|]. split; [exact B5|exact D6].
+    + split; [exact I|]. left. split; [reflexivity|]. apply (Hfin a b B (or_intror eq_refl) Hle).
+Qed.
